@@ -315,7 +315,7 @@ def computeIfPresent (k : Nat) (f : Nat → Nat → Nat → CbRes) (m0 : Map) : 
           | .tree tr o => (treeRemove h k tr o, 2)
           | .empty => (.empty, 0)
         let m := { m with table := some (t.set i b') }
-        (addCount (-1) (some binCount) m, .none)
+        (addCount (-1) none m, .none)
 
 /-- iteration order of `NodeIter` on a quiescent table: bins by index, each in `next` order -/
 def entries (m : Map) : List Node :=
